@@ -37,7 +37,7 @@ def cases(tier):
         out.append(("rep", r))
     for r in range(60 if tier == "quick" else 3000):
         out.append(("bcs", r))
-    for r in range(14 if tier == "quick" else 160):
+    for r in range(18 if tier == "quick" else 160):
         out.append(("sdp", r))
     for r in range(6 if tier == "quick" else 48):
         out.append(("hist", r))
@@ -424,14 +424,26 @@ def _solve(ctx, fn, *args, **kw):
 def _run_sdp(ctx, spec, rng):
     from toqito.nonlocal_games.nonlocal_game import NonlocalGame
 
-    if spec[1] % 3 == 2:
+    if spec[1] % 6 == 5:
+        # answer alphabets that differ by two or more (2 against 4 or 5, 4 against 2 ...) and three questions on the wide side: every operator of
+        # one player must keep its own moments.  A planted pair of answer functions wins with certainty (classical value exactly 1), near misses score 1/4
+        a, b, x, y = [(2, 4, 2, 3), (4, 2, 3, 2), (2, 5, 2, 2), (3, 5, 2, 3), (5, 2, 3, 2), (2, 4, 3, 3)][(spec[1] // 6) % 6]
+        prob, _ = rand_prob(rng, x, y)
+        prob = (prob + 0.02) / (prob + 0.02).sum()
+        f_, g_ = rng.integers(0, a, size=x), rng.integers(0, b, size=y)
+        pred = np.zeros((a, b, x, y))
+        for ia, ib, ix, iy in itertools.product(range(a), range(b), range(x), range(y)):
+            pred[ia, ib, ix, iy] = 1.0 if (ia == f_[ix] and ib == g_[iy]) else (0.25 if (ia == f_[ix] or ib == g_[iy]) else 0.0)
+        name = f"planted-wide[{a},{b},{x},{y}]"
+        planted_shape = (a, b, x, y)
+    elif spec[1] % 3 == 2:
         pk = ["frac", "01", "mixed"][(spec[1] // 3) % 3]
         prob, pred, shp = rand_game(rng, 3, kind=pk)
         name = "random-" + pk
     else:
         prob, pred, name = gap_game(rng, spec[1])
     base_npa1 = None
-    if not name.startswith("random") and spec[1] % 2 == 1:
+    if not name.startswith(("random", "planted")) and spec[1] % 2 == 1:
         # the same game in disguise (relabelled answers, padded with never-winning answers): unequal alphabets whose useful
         # answers sit at arbitrary indices; NPA level 1 must not change
         ctx.evals["solver-call"] += 1
@@ -473,7 +485,7 @@ def _run_sdp(ctx, spec, rng):
     if base_npa1 is not None and npa.get(1) is not None:
         ctx.check("O2:NPA-invariant-under-relabelling", abs(npa[1] - base_npa1) <= TOL, dev=abs(npa[1] - base_npa1), tol=TOL, sig=sig, nt=True,
                   mech="npa:changes-under-answer-relabelling-or-padding", detail=dict(det, npa1_of_original_game=base_npa1))
-    if not name.startswith("random") and spec[1] % 2 == 0 and npa.get(1) is not None:
+    if not name.startswith(("random", "planted")) and spec[1] % 2 == 0 and npa.get(1) is not None:
         # the same game with every winning entry worth c in (0, 1): all values scale by c
         c = float(rng.choice([0.5, 0.25, 0.8]))
         scaled = NonlocalGame(prob.copy(), c * pred)
@@ -485,6 +497,23 @@ def _run_sdp(ctx, spec, rng):
         if cl_c is not FAILED:
             ctx.check("O2:values-scale-with-predicate", abs(cl_c - c * cl_ref) <= 1e-9, dev=abs(cl_c - c * cl_ref), tol=1e-9, sig=sig + ("classical", c), nt=True,
                       mech="classical_value:does-not-scale-with-fractional-predicate", detail=dict(det, c=c, classical_scaled_game=cl_c))
+    if name.startswith("planted"):
+        # the same shape with other planted answer functions (all of them, or a sample): whichever operators an implementation confuses, some planted
+        # deterministic strategy tells them apart; its value 1 must stay below every level
+        pa, pb, px, py = planted_shape
+        fg = list(itertools.product(itertools.product(range(pa), repeat=px), itertools.product(range(pb), repeat=py)))
+        pick = rng.permutation(len(fg))[: 8 if ctx.tier == "quick" else 24]
+        for t_ in pick:
+            f2, g2 = fg[int(t_)]
+            pred2 = np.zeros((pa, pb, px, py))
+            for ia, ib, ix, iy in itertools.product(range(pa), range(pb), range(px), range(py)):
+                pred2[ia, ib, ix, iy] = 1.0 if (ia == f2[ix] and ib == g2[iy]) else (0.25 if (ia == f2[ix] or ib == g2[iy]) else 0.0)
+            g_2 = NonlocalGame(prob.copy(), pred2)
+            for k in (1, "1+ab"):
+                v2 = _solve(ctx, g_2.commuting_measurement_value_upper_bound, k)
+                if v2 is not None:
+                    ctx.check("O2:cl<=NPA", 1.0 <= v2 + TOL, dev=max(0.0, 1.0 - v2), tol=TOL, sig=sig + ("planted", str(k)), nt=True, mech=f"npa:below-classical[k={k}]",
+                              detail={"game": name, "f": f2, "g": g2, "npa": v2, "level": str(k), "classical": 1.0})
     order = [k for k in (1, "1+ab", 2) if npa.get(k) is not None]
     for k1, k2 in zip(order, order[1:]):
         ctx.check("O2:NPA-monotone", npa[k2] <= npa[k1] + TOL, dev=max(0.0, npa[k2] - npa[k1]), tol=TOL, sig=sig + (str(k1), str(k2)), nt=nt,
